@@ -43,7 +43,7 @@ Qed.
 Lemma inv12_run : forall sch s, Inv c s -> Inv2 c s -> Inv c (run c sch s) /\ Inv2 c (run c sch s).
 Proof.
   induction sch as [|x sch IH]; intros s I J; simpl; auto. unfold step'.
-  destruct (step c s x) eqn:E; auto. apply IH. eapply inv_step; eauto. exact Hnw'. eapply inv2_step; eauto.
+  destruct (step c s x) eqn:E; auto. apply IH. apply (inv_step c Hnw' s x); auto. eapply inv2_step; eauto.
 Qed.
 
 Theorem reachable_inv2 : forall scripts sch, Inv c (run c sch (init c scripts)) /\ Inv2 c (run c sch (init c scripts)).
@@ -85,6 +85,236 @@ Proof.
   assert (PM: Permutation (acc s) (ran s ++ canc s)).
   { apply (Permutation_count_occ Nat.eq_dec). intros i. specialize (K i). specialize (Q i). unfold cnt in *. rewrite count_occ_app. lia. }
   rewrite P. rewrite (Permutation_length PM), app_length. lia.
+Qed.
+
+(* ---------- analysis of a stuck state ---------- *)
+Section Stuck.
+Variable s : st.
+Hypothesis I : Inv c s.
+Hypothesis J : Inv2 c s.
+Hypothesis S : stuckb c s = true.
+
+Lemma st_disp : disp s = DParked \/ disp s = DDead \/ (exists t, disp s = DSend t /\ nw c <= length (chanq s)) \/
+  (disp s = DWaitZ /\ pending s <> 0%Z).
+Proof.
+  pose proof (stuck_d s S) as H. unfold d_step in H. cbn [c repaired fCondFree orb] in H.
+  destruct (disp s) eqn:Ed; brk H; auto.
+  - right. right. left. exists t. split; auto. apply Nat.ltb_ge; auto.
+  - right. right. right. split; auto. apply Z.eqb_neq; auto.
+Qed.
+
+Lemma st_smx : smx_free s = true.
+Proof. unfold smx_free. destruct st_disp as [H|[H|[[t [H _]]|[H _]]]]; rewrite H; auto. Qed.
+
+Lemma sub_some_nochk : forall u p, p <> SChk -> sub_step c s u p <> None.
+Proof. intros u p Hp. unfold sub_step. cbn [c repaired fSubLock fCondFree]. destruct p; try congruence; rewrite ?st_smx; discriminate. Qed.
+
+Lemma sub_some_chk : forall u, writer s = None -> sub_step c s u SChk <> None.
+Proof. intros u Hw. unfold sub_step, rfree. cbn [c repaired fSubLock fCondFree]. rewrite Hw. destruct (running s); discriminate. Qed.
+
+Lemma st_readers : readers s = 0.
+Proof.
+  destruct (Nat.eq_dec (readers s) 0) as [|N]; auto. exfalso. rewrite (jR c s J) in N.
+  assert (X: 1 <= sumf w_rd (wks s) \/ 1 <= sumf e_rd (exts s)) by lia. destruct X as [X|X].
+  - destruct (sumf_pos_ex _ _ _ X) as (k & w & Hk & Hw). destruct (stuck_w s k w S Hk) as [H0 _].
+    destruct w as [| |d t [|u rest] p| |]; simpl in Hw; try lia. unfold w_step in H0.
+    assert (P: p <> SChk) by (intros ->; simpl in Hw; lia).
+    pose proof (sub_some_nochk u p P). destruct (sub_step c s u p) as [[? [?|]]|]; congruence.
+  - destruct (sumf_pos_ex _ _ _ X) as (j & e & Hj & He). pose proof (stuck_e s j e S Hj) as H0.
+    destruct e as [pc r]. unfold e_rd in He. cbn [epc_] in He. destruct pc; try lia. unfold e_step in H0. cbn [epc_ ops] in H0.
+    assert (P: p <> SChk) by (intros ->; simpl in He; lia).
+    pose proof (sub_some_nochk t p P). destruct (sub_step c s t p) as [[? [?|]]|]; congruence.
+Qed.
+
+Lemma st_writer : writer s = None.
+Proof.
+  destruct (writer s) as [o|] eqn:Ew; auto. exfalso.
+  pose proof (iW' n cn pg s I) as W. fold c in W. unfold rfree in W. rewrite Ew in W. simpl in W.
+  destruct (sumf_pos_ex _ (e_wp c) (exts s) ltac:(lia)) as (j & e & Hj & He).
+  pose proof (stuck_e s j e S Hj) as H0. pose proof (jTok c s J) as T. pose proof (sumf_ge_nth _ e_owed _ _ _ Hj) as G.
+  destruct e as [pc r]. unfold e_wp in He. unfold e_owed in G at 1. cbn [epc_] in He, G. unfold e_step in H0.
+  cbn [epc_ ops c repaired fStartOut fSigMx negb orb] in H0. rewrite ?st_readers, ?st_smx in H0. simpl in H0.
+  destruct pc; cbn in He; try lia; try discriminate.
+  - destruct (running s); discriminate.
+  - destruct k; try discriminate. destruct (tokens s <? n) eqn:E; try discriminate. apply Nat.ltb_ge in E.
+    change (nw c) with n in T. lia.
+Qed.
+
+Lemma st_wk : forall k w, nth_error (wks s) k = Some w ->
+  w = WDead \/ (w = WInner /\ tokens s = 0 /\ chanq s = [] /\ closed s = false) \/ (w = WDrain /\ chanq s = [] /\ closed s = false).
+Proof.
+  intros k w Hk. destruct (stuck_w s k w S Hk) as [H0 _]. unfold w_step in H0.
+  destruct w as [| |d t [|u rest] p| |]; auto.
+  - destruct (0 <? tokens s); discriminate.
+  - destruct (0 <? tokens s) eqn:Et; destruct (chanq s) eqn:Ec; destruct (closed s) eqn:Ecl; simpl in H0; try discriminate.
+    right. left. repeat split; auto. apply Nat.ltb_ge in Et. lia.
+  - discriminate.
+  - exfalso. destruct p.
+    + pose proof (sub_some_chk u st_writer). destruct (sub_step c s u SChk) as [[? [?|]]|]; congruence.
+    + pose proof (sub_some_nochk u SInc ltac:(discriminate)). destruct (sub_step c s u SInc) as [[? [?|]]|]; congruence.
+    + pose proof (sub_some_nochk u SPush ltac:(discriminate)). destruct (sub_step c s u SPush) as [[? [?|]]|]; congruence.
+    + pose proof (sub_some_nochk u SBc ltac:(discriminate)). destruct (sub_step c s u SBc) as [[? [?|]]|]; congruence.
+    + pose proof (sub_some_nochk u SUnl ltac:(discriminate)). destruct (sub_step c s u SUnl) as [[? [?|]]|]; congruence.
+  - destruct (chanq s) eqn:Ec; destruct (closed s) eqn:Ecl; destruct (cancel c); try discriminate. auto. auto.
+Qed.
+
+Lemma st_wp0 : forall j e, nth_error (exts s) j = Some e -> wpc c (epc_ e) = false.
+Proof.
+  intros j e Hj. pose proof (iW' n cn pg s I) as W. fold c in W. unfold rfree in W. rewrite st_writer in W. simpl in W.
+  pose proof (sumf_ge_nth _ (e_wp c) _ _ _ Hj) as G. unfold e_wp in G at 1. destruct (wpc c (epc_ e)); auto. simpl in G. lia.
+Qed.
+
+Definition blocked_ext (e : ext) : Prop :=
+  (epc_ e = EIdle /\ (ops e = [] \/ (exists r, ops e = OStart :: r /\ startmx s = true) \/
+                      (exists r, ops e = OWaitShutdown :: r /\ all_dead s = false) \/
+                      (exists r, ops e = OWaitZero :: r /\ pending s <> 0%Z))) \/
+  (epc_ e = EStWait /\ all_dead s = false).
+
+Lemma st_ext : forall j e, nth_error (exts s) j = Some e -> blocked_ext e.
+Proof.
+  intros j e Hj. pose proof (stuck_e s j e S Hj) as H0. pose proof (st_wp0 j e Hj) as Wp.
+  destruct e as [pc r]. unfold blocked_ext. cbn [epc_ ops] in *. unfold e_step in H0.
+  cbn [epc_ ops c repaired fStartOut fSigMx negb orb] in H0. unfold rfree in H0. rewrite ?st_writer, ?st_readers, ?st_smx in H0.
+  destruct pc; cbn in Wp; try discriminate.
+  - left. split; auto. destruct r as [|[t| | | |] r']; auto.
+    + exfalso. pose proof (sub_some_chk t st_writer). destruct (sub_step c s t SChk) as [[? [?|]]|]; congruence.
+    + discriminate.
+    + right. left. exists r'. split; auto. destruct (startmx s); auto. discriminate.
+    + right. right. left. exists r'. split; auto. destruct (all_dead s); auto. discriminate.
+    + right. right. right. exists r'. split; auto. destruct (pending s =? 0)%Z eqn:E; try discriminate. apply Z.eqb_neq; auto.
+  - exfalso. destruct p.
+    + pose proof (sub_some_chk t st_writer). destruct (sub_step c s t SChk) as [[? [?|]]|]; congruence.
+    + pose proof (sub_some_nochk t SInc ltac:(discriminate)). destruct (sub_step c s t SInc) as [[? [?|]]|]; congruence.
+    + pose proof (sub_some_nochk t SPush ltac:(discriminate)). destruct (sub_step c s t SPush) as [[? [?|]]|]; congruence.
+    + pose proof (sub_some_nochk t SBc ltac:(discriminate)). destruct (sub_step c s t SBc) as [[? [?|]]|]; congruence.
+    + pose proof (sub_some_nochk t SUnl ltac:(discriminate)). destruct (sub_step c s t SUnl) as [[? [?|]]|]; congruence.
+  - destruct (running s); discriminate.
+  - right. split; auto. destruct (all_dead s); auto. discriminate.
+Qed.
+
+Lemma forallb_false_ex : forall A (f : A -> bool) l, forallb f l = false -> exists k x, nth_error l k = Some x /\ f x = false.
+Proof.
+  induction l as [|a l IH]; simpl; intros H; try discriminate. destruct (f a) eqn:E.
+  - destruct (IH H) as (k & x & Hk & Hx). exists (Datatypes.S k), x. auto.
+  - exists 0, a. auto.
+Qed.
+
+Lemma wks_nonempty : wks s <> [].
+Proof. intros E. pose proof (iLen c s I) as L. rewrite E in L. simpl in L. pose proof Hnw'. lia. Qed.
+
+Lemma st_chanq : chanq s = [].
+Proof.
+  destruct (all_dead s) eqn:AD.
+  - destruct (iDead c s I (all_dead_exists _ wks_nonempty AD)); auto.
+  - destruct (forallb_false_ex _ _ _ AD) as (k & w & Hk & Hw).
+    destruct (st_wk k w Hk) as [->|[(_ & _ & E & _)|(_ & E & _)]]; auto. discriminate.
+Qed.
+
+Lemma st_no_send : forall t, disp s <> DSend t.
+Proof.
+  intros t E. destruct st_disp as [H|[H|[[t' [H L]]|[H _]]]]; try congruence.
+  rewrite st_chanq in L. simpl in L. pose proof Hnw'. lia.
+Qed.
+
+Lemma st_wk0 : forall i k w, nth_error (wks s) k = Some w -> w_inf i w = 0 /\ w_bc w = 0.
+Proof. intros i k w Hk. destruct (st_wk k w Hk) as [->|[(-> & _)|(-> & _)]]; auto. Qed.
+
+Lemma st_ext0 : forall i j e, nth_error (exts s) j = Some e ->
+  e_inf i e = 0 /\ e_bc e = 0 /\ e_sendbc e = 0 /\ e_owed e = 0 /\ (e_mp c e = 1 -> epc_ e = EStWait).
+Proof.
+  intros i j e Hj. unfold e_inf, e_bc, e_sendbc, e_owed, e_mp. destruct (st_ext j e Hj) as [[-> _]|[-> _]]; cbn; repeat split; auto. discriminate.
+Qed.
+
+Lemma st_inflight : queue s = [] -> forall i, inflight i s = 0.
+Proof.
+  intros Q i. unfold inflight. rewrite Q, st_chanq.
+  rewrite (sumf_all0 _ (w_inf i)) by (intros k w Hk; apply (st_wk0 i k w Hk)).
+  rewrite (sumf_all0 _ (e_inf i)) by (intros j e Hj; apply (st_ext0 i j e Hj)).
+  destruct st_disp as [H|[H|[[t [H _]]|[H _]]]]; rewrite H; auto. exfalso. eapply st_no_send; eauto.
+Qed.
+
+Lemma st_startmx : (forall j e, nth_error (exts s) j = Some e -> epc_ e <> EStWait) -> startmx s = false.
+Proof.
+  intros NW. destruct (startmx s) eqn:E; auto. exfalso.
+  pose proof (iM' n cn pg s I) as M. fold c in M. rewrite E in M. simpl in M.
+  destruct (sumf_pos_ex _ (e_mp c) (exts s) ltac:(lia)) as (j & e & Hj & He).
+  destruct (st_ext0 0 j e Hj) as (_ & _ & _ & _ & X). apply (NW j e Hj). apply X.
+  unfold e_mp in *. destruct (mpc c (epc_ e)); simpl in *; lia.
+Qed.
+
+Theorem stuck_final :
+  (forall i, inflight i s = 0) /\ (running s = false -> all_dead s = true /\ disp s = DDead) /\
+  (forall e, In e (exts s) -> (epc_ e = EIdle /\ ops e = []) \/ (running s = true /\ epc_ e = EIdle /\ exists r, ops e = OWaitShutdown :: r)).
+Proof.
+  destruct (running s) eqn:Er.
+  - (* the pool is running: idle *)
+    assert (D: disp s = DParked).
+    { destruct st_disp as [H|[H|[[t [H _]]|[H _]]]]; auto.
+      - destruct (jQ c s J) as [X _]. rewrite H; auto. congruence.
+      - exfalso. eapply st_no_send; eauto.
+      - destruct (jQ c s J) as [X _]. rewrite H; auto. congruence. }
+    assert (Q: queue s = []).
+    { destruct (queue s) eqn:E; auto. exfalso. destruct (jPark c s J D) as [_ X]. rewrite E in X. specialize (X ltac:(discriminate)).
+      rewrite (sumf_all0 _ w_bc) in X by (intros k w Hk; apply (st_wk0 0 k w Hk)).
+      rewrite (sumf_all0 _ e_bc) in X by (intros j e Hj; apply (st_ext0 0 j e Hj)). lia. }
+    pose proof (st_inflight Q) as F. pose proof (pending_zero s I F) as P.
+    assert (NW: forall j e, nth_error (exts s) j = Some e -> epc_ e <> EStWait).
+    { intros j e Hj E. pose proof (jWait c s J Er) as X. pose proof (sumf_ge_nth _ e_wait _ _ _ Hj) as G.
+      unfold e_wait in G at 1. rewrite E in G. lia. }
+    split; auto. split. discriminate.
+    intros e He. destruct (In_nth_error _ _ He) as [j Hj].
+    destruct (st_ext j e Hj) as [[E [X|[(r & X & Y)|[(r & X & Y)|(r & X & Y)]]]]|[E _]].
+    + auto.
+    + rewrite (st_startmx NW) in Y. discriminate.
+    + right. repeat split; eauto.
+    + congruence.
+    + exfalso. eapply NW; eauto.
+  - (* Shutdown has been called: the shutdown is complete *)
+    assert (SB: sumf e_sendbc (exts s) = 0) by (apply sumf_all0; intros j e Hj; apply (st_ext0 0 j e Hj)).
+    assert (OW: sumf e_owed (exts s) = 0) by (apply sumf_all0; intros j e Hj; apply (st_ext0 0 j e Hj)).
+    assert (D: disp s = DDead).
+    { destruct st_disp as [H|[H|[[t [H _]]|[H Pn]]]]; auto.
+      - destruct (jPark c s J H) as [X _]. specialize (X Er). lia.
+      - exfalso. eapply st_no_send; eauto.
+      - exfalso. apply Pn. apply (pending_zero s I). apply st_inflight. destruct (jQ c s J) as [_ X]. rewrite H; auto. auto. }
+    assert (Q: queue s = []) by (destruct (jQ c s J) as [_ X]; [rewrite D; auto|auto]).
+    pose proof (jDD c s J D) as CL.
+    assert (AD: all_dead s = true).
+    { unfold all_dead. apply forallb_forall. intros w Hw. destruct (In_nth_error _ _ Hw) as [k Hk].
+      destruct (st_wk k w Hk) as [->|[(_ & _ & _ & X)|(_ & _ & X)]]; auto; congruence. }
+    pose proof (st_inflight Q) as F. pose proof (pending_zero s I F) as P.
+    assert (NW: forall j e, nth_error (exts s) j = Some e -> epc_ e <> EStWait).
+    { intros j e Hj E. destruct (st_ext j e Hj) as [[E' _]|[_ X]]; congruence. }
+    split; auto. split; auto.
+    intros e He. destruct (In_nth_error _ _ He) as [j Hj].
+    destruct (st_ext j e Hj) as [[E [X|[(r & X & Y)|[(r & X & Y)|(r & X & Y)]]]]|[E _]].
+    + auto.
+    + rewrite (st_startmx NW) in Y. discriminate.
+    + congruence.
+    + congruence.
+    + exfalso. eapply NW; eauto.
+Qed.
+
+End Stuck.
+
+(* every reachable stuck state of the repaired model is final *)
+Theorem shutdown_terminates : forall scripts sch, let s := run c sch (init c scripts) in
+  stuckb c s = true ->
+  (forall i, inflight i s = 0) /\ (running s = false -> all_dead s = true /\ disp s = DDead) /\
+  (forall e, In e (exts s) -> (epc_ e = EIdle /\ ops e = []) \/ (running s = true /\ epc_ e = EIdle /\ exists r, ops e = OWaitShutdown :: r)).
+Proof. intros scripts sch s S. destruct (reachable_inv2 scripts sch) as [I J]. apply stuck_final; auto. Qed.
+
+(* progress form: once Shutdown has taken effect (the pool is stopped) and the shutdown is not complete - a worker or the
+   dispatcher is still alive, or something is still in flight, or the counter is not zero - some thread has an enabled step *)
+Theorem shutdown_progress : forall scripts sch, let s := run c sch (init c scripts) in
+  running s = false -> (all_dead s = false \/ disp s <> DDead \/ pending s <> 0%Z) ->
+  exists t, In t (threads s) /\ enabledb c s t = true.
+Proof.
+  intros scripts sch s R B. destruct (stuckb c s) eqn:S.
+  - exfalso. destruct (reachable_inv2 scripts sch) as [I J]. destruct (shutdown_terminates scripts sch S) as (F & X & _).
+    destruct (X R) as [A D]. fold s in A, D. destruct B as [B|[B|B]]; try congruence. apply B. apply (pending_zero s I F).
+  - unfold stuckb in S. destruct (forallb_false_ex _ _ _ S) as (k & t & Hk & Ht). exists t. split.
+    eapply nth_error_In; eauto. destruct (enabledb c s t); auto.
 Qed.
 
 End T.
